@@ -22,8 +22,10 @@ def parseStep (s : String) : Option StepOutcome :=
 
 def parseSteps (l : List String) : Option (List StepOutcome) := l.mapM parseStep
 
+/-- begin flag: 1 = succeeds; 0 = fails; 2, 3, 4 = the first attempt fails with a well-known transient error (a retry
+    would succeed) — `Transact` makes one attempt, so for the model all of them are "begin failed" -/
 def parseBool (s : String) : Option Bool :=
-  if s == "1" then some true else if s == "0" then some false else none
+  if s == "1" then some true else if s == "0" || s == "2" || s == "3" || s == "4" then some false else none
 
 /-- commit / rollback flag: 1 = succeeds; 0, 2, 3, 4 = fails (with the fake's own error or a well-known sentinel —
     the model does not distinguish the kinds: the outcome may not depend on which error the driver returns) -/
